@@ -33,7 +33,7 @@ DT = {"c128": np.complex128, "c64": np.complex64, "f64": np.float64, "f32": np.f
 
 
 def bounds(tier):
-    return {"shapes": "1-3 dims over lengths 1..5, <= %d elements; 4 dims: <= %d elements%s" % (24 if tier == "quick" else 60, 16 if tier == "quick" else 24, "" if tier == "quick" else ", lengths <= 3"),
+    return {"shapes": "1-3 dims over lengths 1..5, <= %d elements; 4 dims: <= %d elements%s" % (24 if tier == "quick" else 60, 16 if tier == "quick" else 24, "" if tier == "quick" else ", lengths <= 3; plus a band of longer axes 7, 8, 9, 11, 12, 16, 17, 2x7, 8x3, 6x6, 3x4x5 and one 5-D array"),
             "axes": "every subset of range(-ndim, ndim) without duplicates mod ndim, None, and the empty selection (identity)",
             "center": [True, False], "norm": ["ortho", None],
             "oshape": "centred only: 1-D n in 1..5 -> m in 1..7; 2-D/3-D: every per-axis choice from {n-1, n, n+1, n+2}",
@@ -63,6 +63,16 @@ def gen_cases(tier, seed):
                             continue
                         cases.append(dict(kind="fft", shape=list(s), axes=None if ax is None else list(ax),
                                           center=cen, norm=norm, oshape=None, dtype=dt))
+    if T:
+        # a band of longer axes (prime, power of two, highly composite lengths) and one 5-D array
+        for s in ([7], [8], [9], [11], [12], [16], [17], [2, 7], [8, 3], [6, 6], [3, 4, 5], [1, 2, 1, 2, 3]):
+            for ax in space.axes_subsets(len(s), nonempty=False):
+                if len(s) == 5 and ax is not None and len(ax) not in (1, 5):
+                    continue
+                for cen in (True, False):
+                    for norm in ("ortho", None):
+                        cases.append(dict(kind="fft", shape=list(s), axes=None if ax is None else list(ax),
+                                          center=cen, norm=norm, oshape=None, dtype="c128"))
     # centred with output shapes
     for n in range(1, 6):
         for m in range(1, 8):
